@@ -197,6 +197,13 @@ fn needs_bracket_notation(name: &str) -> bool {
     if name.is_empty() {
         return true;
     }
+    // A bare `public`, `readonly`, ... after `---@field` is read as a modifier, not as the name
+    if matches!(
+        name,
+        "private" | "protected" | "public" | "package" | "readonly"
+    ) {
+        return true;
+    }
     // Must start with letter or underscore
     let first = name.chars().next().unwrap();
     if !first.is_ascii_alphabetic() && first != '_' {
